@@ -50,23 +50,31 @@ META = {
 }
 
 PREAMBLE = """From Coq Require Import ZArith Ascii.
-From DL Require Import Lib.Bytes Lib.F64 Lua.Syntax Lua.Sem Lua.DataSpec Model.Serializer.
+From DL Require Import Lib.Bytes Lib.F64 Lua.Syntax Lua.Sem Lua.DataSpec Model.Serializer Model.SerializerCheck.
 Open Scope N_scope.
 Open Scope string_scope.
 Definition bx := unhex.
 Definition nm := of_string.
 (* case = (recorded serde calls and the tree the real to_expression built, if any;
+           hex of convert_data's text when it is the first program, if any;
            parsed emitted programs; expected rendering; fuel; mode (0 compare, 1 only run)) *)
-Definition case := (option (data * expr) * list block * rvalue * N * N)%type.
-Definition c_model (c : case) := let '(m, _, _, _, _) := c in m.
-Definition c_blocks (c : case) := let '(_, b, _, _, _) := c in b.
-Definition c_expected (c : case) := let '(_, _, e, _, _) := c in e.
-Definition c_fuel (c : case) := let '(_, _, _, f, _) := c in f.
-Definition c_mode (c : case) := let '(_, _, _, _, m) := c in m.
+Definition case := (option (data * expr) * option string * list block * rvalue * N * N)%type.
+Definition c_model (c : case) := let '(m, _, _, _, _, _) := c in m.
+Definition c_text (c : case) := let '(_, t, _, _, _, _) := c in t.
+Definition c_blocks (c : case) := let '(_, _, b, _, _, _) := c in b.
+Definition c_expected (c : case) := let '(_, _, _, e, _, _) := c in e.
+Definition c_fuel (c : case) := let '(_, _, _, _, f, _) := c in f.
+Definition c_mode (c : case) := let '(_, _, _, _, _, m) := c in m.
 Definition model_ok (c : case) : bool :=
   match c_model c with
   | None => true
   | Some (d, t) => model_matches d t
+  end.
+(* reference lexer + reference literal decoder (Luau escape rules) on convert_data's text *)
+Definition literals_ok (c : case) : bool :=
+  match c_text c, c_blocks c with
+  | Some h, b :: _ => literals_agree true (unhex h) b
+  | _, _ => true
   end.
 (* 0 ok, 1 value differs, 2 run-time error, 3 out of fuel, 4 outside the interpreter, 5 not one value *)
 Definition run_code (c : case) (b : block) (d : dialect) : N :=
@@ -79,9 +87,10 @@ Definition run_code (c : case) (b : block) (d : dialect) : N :=
   end.
 Definition codes (c : case) : list N :=
   List.flat_map (fun b => [run_code c b L51; run_code c b Luau]) (c_blocks c).
-Definition check_case (c : case) : bool := model_ok c && List.forallb (N.eqb 0) (codes c).
+Definition check_case (c : case) : bool := model_ok c && literals_ok c && List.forallb (N.eqb 0) (codes c).
 Definition diag_case (c : case) : string :=
-  (if model_ok c then "model=ok" else "model=DIFFERS") ++ " runs=" ++
+  (if model_ok c then "model=ok" else "model=DIFFERS") ++
+  (if literals_ok c then " literals=ok" else " literals=DIFFER") ++ " runs=" ++
   List.fold_right (fun n acc => String (ascii_of_N (48 + n)) acc) "" (codes c).
 """
 
@@ -259,6 +268,7 @@ def build_case(r, expected, nodes, mode):
         else:
             model = "(Some (%s, %s))" % (data, tree)
     blocks = []
+    text = "None"
     for tagk in ("C", "B"):
         if tagk not in r:
             continue
@@ -270,11 +280,13 @@ def build_case(r, expected, nodes, mode):
         elif block.startswith("ERR:"):
             problems.append(("the text emitted by %s does not parse" % where, block + " :: " + text_of(hexs)[:400]))
         else:
+            if tagk == "C":
+                text = '(Some "%s")' % hexs
             blocks.append(block)
     if not blocks and model == "None":
         return None, problems
     fuel = 6 * nodes + 400
-    term = "(%s, [%s], %s, %d, %d)" % (model, "; ".join(blocks), expected, fuel, mode)
+    term = "(%s, %s, [%s], %s, %d, %d)" % (model, text, "; ".join(blocks), expected, fuel, mode)
     return term, problems
 
 
@@ -344,7 +356,9 @@ def run(ctx):
     # ---- main stream
     main_bad = [i for i in bad if i < n_main]
     model_bad = [i for i in main_bad if "model=DIFFERS" in bad[i]]
-    run_bad = [i for i in main_bad if bad[i].split("runs=")[1].strip("0") != ""]
+    run_bad = [i for i in main_bad if bad[i].split("runs=")[1].strip("0") != "" or "literals=DIFFER" in bad[i]]
+    needs_luau_escapes = sum(1 for i in info if i < n_main and "C" in info[i] and not info[i]["C"][0].startswith("ERR:")
+                             and b"\\u{" in bytes.fromhex(info[i]["C"][0]))
     samples = [{"format": docs[i][0], "document": docs[i][1][:300]} for i in (5, len(docs) // 2, len(docs) - 20) if i < len(docs)]
     ctx.stream("documents: serializer model vs the tree built by the real to_expression (from the recorded serde calls)",
                sum(1 for i in info if i < n_main and "D" in info[i]), nontrivial, samples,
@@ -352,11 +366,12 @@ def run(ctx):
     ctx.stream("documents: emitted text (convert_data + bundled require) parsed, run in the Coq interpreter under both "
                "dialects and compared with the value computed from the document",
                2 * sum(len([k for k in ("C", "B") if k in info[i]]) for i in info if i < n_main), nontrivial, [],
-               differing=len(run_bad))
+               differing=len(run_bad), texts_using_luau_only_unicode_escapes=needs_luau_escapes)
 
     for i in run_bad[:6]:
         ctx.violation("the emitted Lua does not evaluate to the document's value (runs: per program and dialect "
-                      "0 ok / 1 differs / 2 run-time error / 3 fuel / 4 unsupported / 5 arity): " + bad[i],
+                      "0 ok / 1 differs / 2 run-time error / 3 fuel / 4 unsupported / 5 arity; literals = string literals of the "
+                      "text read by the reference lexer and decoder vs the parsed tree): " + bad[i],
                       replay_of(i), key="value:" + all_docs[i][0] + ":" + all_docs[i][1][:40].replace(" ", "_"))
     for i, what, detail in hard:
         if i < n_main + len(WITNESSES):
@@ -391,6 +406,7 @@ def run(ctx):
 def replay(ctx, path):
     r = json.load(open(path))
     print(json.dumps(r, indent=1)[:6000])
+    r = r.get("replay", r)
     if "document_hex" not in r:
         return 0
     C.build_harness("dl-c14")
